@@ -25,7 +25,8 @@ RULE = ('one case = one history against a fresh SQLite file: either 1-20 generat
 ASSUMPTIONS = [
     'float bounds and float costs (observation O1: integer bounds give numpy.int64 signed costs that json rejects)',
     'NaN is not generated (NaN != NaN makes "the same value" undefined); +-inf is',
-    'single writer thread (C07 covers concurrent writers)',
+    'single writer thread (C07 covers concurrent writers); a simulated foreign process may hold the database lock for 3-70 virtual '
+    'seconds across a synchronisation (fault kind foreign_lock)',
     'timing features (start_time / finish_time) are compared like any other feature: the clock is virtual',
 ]
 COMPONENTS = {
@@ -33,7 +34,7 @@ COMPONENTS = {
              'python sqlite3 + libsqlite3 on a tmpfs file', 'run family: the algorithms named in the rule'],
     'stub': ['user objective (harness world)', 'time.time', 'uuid1', 'joblib (unused: single writer)'],
 }
-PROBES_EXPECTED = ['resync_same_id', 'inf_value', 'numpy_scalar', 'reference_to_individual', 'nested_custom', 'sync_all',
+PROBES_EXPECTED = ['foreign_lock', 'resync_same_id', 'inf_value', 'numpy_scalar', 'reference_to_individual', 'nested_custom', 'sync_all',
                    'run_family', 'view_mid_history']
 
 FIELDS = ('vector', 'costs', 'costs_signed', 'population_id', 'custom', 'features')
@@ -188,6 +189,14 @@ def _store(D):
                 kind = 'new'
             kinds.append(kind)
             sim.ev('op', o, kind)
+            locked_this_op = False
+            if kind in ('new', 'resync', 'sync_all') and D.flag('fault', ('foreign_lock', o), 0.12):
+                locked_this_op = True
+                # another process (a viewer, a backup) holds the database exclusively for a while: the synchronisation that
+                # follows must still have written its row when it returns
+                from .. import seams
+                seams.take_foreign_lock(sim, path, (3.0, 12.0, 31.0, 70.0)[D.dec('fault', ('foreign_hold', o), 4)])
+                ctx.probe('foreign_lock')
             if kind == 'new':
                 ind = Individual(W.gen_vector(w, D, 'work', ('v', o)))
                 k = ('o', o)
@@ -240,14 +249,27 @@ def _store(D):
                     model[ind.id] = model_of(ind)
                     ctx.probe('resync_same_id')
             elif kind == 'sync_all':
-                with W.quiet():
-                    store.sync_all()
-                for ind in p.individuals:
-                    model[ind.id] = model_of(ind)
-                ctx.probe('sync_all')
+                failed = False
+                try:
+                    with W.quiet():
+                        store.sync_all()
+                except Exception as e:
+                    # sync_all has no retry: under a foreign lock that outlasts the busy time-out it fails as a whole
+                    # (one transaction, nothing written, nothing acknowledged) - a failed operation, not wrong data
+                    if not locked_this_op or 'locked' not in str(e):
+                        raise
+                    failed = True
+                    ctx.probe('sync_all_failed_under_foreign_lock')
+                if not failed:
+                    for ind in p.individuals:
+                        model[ind.id] = model_of(ind)
+                    ctx.probe('sync_all')
             else:
                 ctx.probe('view_mid_history')
                 compare_view(ctx, path, model, definition, site)
+            if sim.foreign_lock is not None:
+                from .. import seams
+                seams.release_foreign_lock(sim)     # the foreign holder never outlives the operation it disturbed
             if ctx.violations:
                 break
         if not ctx.violations:
@@ -259,6 +281,8 @@ def _store(D):
             raise
         ctx.violation('unexpected_exception', site, 'operation %s raised %r' % (kinds[-1] if kinds else '?', e))
     finally:
+        from .. import seams
+        seams.release_foreign_lock(sim)
         p.data_store = None
         store = None
         W.remove_db(path)
